@@ -43,7 +43,7 @@ def handle : List String → Option String
           let shape := match r.shape with | some (b, t) => s!"{showB b}{showTest t}" | none => "none"
           some s!"single {r.key} {r.alloc.coef} {r.alloc.const} {r.cols} {showB r.zeroed} {r.guard} {r.lo} {r.hi.coef} {r.hi.const} {r.sliceOff} {r.code} {showB r.ok} {shape} {showList showEv r.body}"
       | none, some r =>
-          some s!"nested {r.key} {showB r.zeroed} {r.rows} {r.colc} {r.ohi} {r.ihi} {r.jmax0} {r.srow} {r.scol} {showB r.ok} {showList showNEv r.ibody} {showList showOEv r.outer}"
+          some s!"nested {r.key} {showB r.zeroed} {r.rows} {r.colc} {r.ohi} {r.ihi} {r.jmax0} {r.srow} {r.scol} {showB (r.ok && r.distinct)} {showList showNEv r.ibody} {showList showOEv r.outer}"
       | none, none => some "missing"
   | ["c01.tblcount"] => some s!"{Gen.loopTable.length} {Gen.nestTable.length} {Gen.loopFailed.length} {showB Gen.loopsTranslated}"
   | ["c01.tblrun", func, n, tol, ds, flags] => do
